@@ -754,15 +754,24 @@ def judge(case, impl, resp):
             if i["ideal"] and i["k"] >= 2 and not cl["dev"] <= 1e-6:
                 spec.append("depth_only_normals_reproduced_in_every_cluster")
         knife = None
+        # With corrections off the property's first sentence DETERMINES the table (bins, log2 = biweight location and
+        # spread = biweight midvariance of the centred, sex-shifted samples + pseudo-sample, with the sexes as given or
+        # as the real code inferred them), and the model is that sentence (theorem
+        # reference_values_are_biweight_of_columns).  A real output that differs is therefore a concrete failing input
+        # of the property, not only a broken correspondence: it is reported under the clause it contradicts.
         if len(out) != len(rows):
             dis.append(f"row count model {len(out)} impl {len(rows)}")
+            spec.append("reference_has_exactly_the_bins")
         else:
             for k, (m, r) in enumerate(zip(out, rows)):
                 if m[:4] != r[:4]:
                     dis.append(f"row {k}: model {m[:4]} impl {r[:4]}")
+                    spec.append("reference_has_exactly_the_bins")
                     break
                 if not _close(r[4], m[4]) or not _close(r[5], m[5], 1e-6):
                     dis.append(f"row {k}: log2/depth model {float(Fraction(m[4]))},{float(Fraction(m[5]))} impl {float(Fraction(r[4]))},{float(Fraction(r[5]))}")
+                    if not _close(r[4], m[4]):
+                        spec.append("log2_is_biweight_location_of_centred_shifted_samples")
                     break
                 kind = m[6][0]
                 sp = float(Fraction(r[6]))
@@ -779,6 +788,7 @@ def judge(case, impl, resp):
                     ok = math.isnan(sp) or math.isinf(sp)
                 if not ok:
                     dis.append(f"row {k}: spread model {m[6]} impl {sp}")
+                    spec.append("spread_is_biweight_midvariance_of_centred_shifted_samples")
                     break
         return spec, dis, (knife if not dis and not spec else None)
     if isinstance(impl, dict) and "__error__" in impl:
